@@ -7,6 +7,9 @@
   (its one partial operation, `len(options)`, is `pyLen` in Props/C11) and is not part of the
   block value; it is not modelled here.
 
+  (As of /repo b545356 continued and deprecated-tag annotations keep a position, as of 4fa4c2f text in
+  front of the closing token is diagnosed against its source line.)
+
   Every partial Python operation is an explicit `Except PyErr` step:
   `comment_lines[-1]` (IndexError on an empty list), `line_indent <= part_indent`
   (TypeError when `part_indent` is None), `current_part.description` (AttributeError when
@@ -331,7 +334,10 @@ def attributesTagStep (st : BSt) (blk : BlockM) (ln col : Nat) (orig line : Str)
             let st := st.log (tdiagsAt ln orig d2)
             if optsTruthy ((assocGet? blk.annotations (str Gen.annAttributes)).getD .none) then
               .ok (st.log [mkDiag .error .duplicateAttributesTag ln mpos orig])
-            else .ok { st with block := some { blk with annotations := assocSet blk.annotations n o } }
+            else
+              -- `if comment_block.annotations.position is None: ….position = position`
+              .ok { st with block := some { blk with annotations := assocSet blk.annotations n o,
+                                                     annsLine := blk.annsLine <|> some ln } }
 
 /-- a regular (non-deprecated-annotation) tag: `in_part` bookkeeping -/
 def tagInPart (st : BSt) (blk : BlockM) : Bool :=
@@ -359,7 +365,8 @@ def tagStep (st : BSt) (blk : BlockM) (ln col : Nat) (orig line : Str) (indent :
       | .error e => .error e
       | .ok (none, _) => .error .keyError          -- annotations[None]: not reachable, the name is not "attribute"
       | .ok (some (n, o), d) =>
-        .ok ({ st with block := some { blk with annotations := assocSet blk.annotations n o } }.log (tdiagsAt ln line d))
+        .ok ({ st with block := some { blk with annotations := assocSet blk.annotations n o,
+                                                annsLine := blk.annsLine <|> some ln } }.log (tdiagsAt ln line d))
   else if lower = str Gen.tagDescription then
     .ok ({ st with inPart := some .desc,
                    block := some { blk with description := some (match blk.description with
@@ -415,8 +422,9 @@ def middleStep (st : BSt) (blk : BlockM) (ln col : Nat) (orig line0 : Str) : Exc
       | .fail d => .ok (plain.log (tdiagsAt ln orig d))
       | .ok a _ ch _ _ d =>
         if ch then
-          -- `annotations.copy()` is `OrderedDict.copy()`: the position is not carried over
-          .ok ({ st with block := some { blk with annotations := a, annsLine := none } }.log (tdiagsAt ln orig d))
+          -- `GtkDocAnnotations(annotations, position=annotations.position or position)`
+          .ok ({ st with block := some { blk with annotations := a, annsLine := blk.annsLine <|> some ln } }.log
+                 (tdiagsAt ln orig d))
         else .ok (plain.log (tdiagsAt ln orig d))
     else .ok plain
   else if st.inPart = some .params ∨ st.inPart = some .tags then
@@ -431,7 +439,7 @@ def middleStep (st : BSt) (blk : BlockM) (ln col : Nat) (orig line0 : Str) : Exc
         | .error e => .error e
         | .ok r =>
           if r.success && r.changed then
-            let p' := { p with annotations := r.anns, annsLine := none, description := some r.description }
+            let p' := { p with annotations := r.anns, annsLine := p.annsLine <|> some ln, description := some r.description }
             .ok ({ st with block := some (storeCur blk isTag p'), cur := some (isTag, p') }.log (tdiagsAt ln orig r.diags))
           else .ok (plain (tdiagsAt ln orig r.diags))
       else .ok (plain [])
@@ -447,6 +455,15 @@ def stripAsterisk (ln : Nat) (orig : Str) : List BDiag × Nat × Str :=
     (if (groupText orig g "comment").isEmpty then []
      else [mkDiag .error .invalidCommentText ln (groupStart g "comment") orig], e, orig.drop e)
   | none => ([], 0, orig)
+
+/-- the same for the last line when text stands in front of the closing token: `line` is that text, `orig`
+    the source line it was cut from and `base` the column at which it starts there -/
+def stripAsteriskAt (ln base : Nat) (orig line : Str) : List BDiag × Nat × Str :=
+  match matchAsterisk line with
+  | some (g, e) =>
+    (if (groupText line g "comment").isEmpty then []
+     else [mkDiag .error .invalidCommentText ln (base + groupStart g "comment") orig], base + e, line.drop e)
+  | none => ([], base, line)
 
 /-- the loop body after the asterisk has been removed: `col` = `column_offset`, `line` = the rest -/
 def lineBody (h : Hdr) (st : BSt) (ln col : Nat) (orig line : Str) : Except PyErr BSt :=
@@ -473,6 +490,12 @@ def lineBody (h : Hdr) (st : BSt) (ln col : Nat) (orig line : Str) : Except PyEr
 def lineStep (h : Hdr) (st : BSt) (ln : Nat) (orig : Str) : Except PyErr BSt :=
   let a := stripAsterisk ln orig
   lineBody h ({ st with blockIndent := st.blockIndent ++ [orig.take (countWs orig)] }.log a.1) ln a.2.1 orig a.2.2
+
+/-- the last iteration when text stands in front of the closing token (`original_line = end_line`,
+    `column_offset = end_offset`) -/
+def lineStepAt (h : Hdr) (st : BSt) (ln base : Nat) (orig line : Str) : Except PyErr BSt :=
+  let a := stripAsteriskAt ln base orig line
+  lineBody h ({ st with blockIndent := st.blockIndent ++ [line.take (countWs line)] }.log a.1) ln a.2.1 orig a.2.2
 
 def lineLoop (h : Hdr) : List Str → Nat → BSt → Except PyErr BSt
   | [], _, st => .ok st
@@ -509,11 +532,22 @@ def finishBlock (st : BSt) : Option BlockM :=
       params := blk.params.map (fun e => (e.1, cleanDescription e.2)),
       indentation := st.blockIndent }
 
+/-! ### what `validate()` reports against -/
+
+/-- the positions `GtkDocCommentBlock.validate()` reports: `GtkDocAnnotatable.validate` runs for the block, then
+    every parameter, then every tag, does nothing for a part without annotations and hands
+    `self.annotations.position` to every `warn()` of a part that has some -/
+def validatePositions (b : BlockM) : List (Option Nat) :=
+  (if b.annotations.isEmpty then [] else [b.annsLine]) ++
+  (b.params.filter (fun e => !e.2.annotations.isEmpty)).map (fun e => e.2.annsLine) ++
+  (b.tags.filter (fun e => !e.2.annotations.isEmpty)).map (fun e => e.2.annsLine)
+
 /-! ### start and end tokens -/
 
 /-- result of the two token checks: the lines to loop over, the header, the diagnostics -/
 structure Opened where
-  lines : List Str
+  lines : List Str                       -- the lines between the tokens
+  endText : Option (Str × Str × Nat)     -- text in front of the closing token: (text, its source line, its column there)
   hdr : Hdr
   deriving Repr, DecidableEq
 
@@ -544,8 +578,9 @@ def openBlock (lines : List Str) (lineno : Nat) : Except PyErr (Option Opened ×
             let commentE := groupText last ge "comment"
             let d3 := if codeAfter.isEmpty then [] else [mkDiag .warning .codeAfterEnd (lineno + n - 1) (groupEnd ge "code") last]
             let d4 := if commentE.isEmpty then [] else [mkDiag .warning .textBeforeEnd (lineno + n - 1) (groupEnd ge "comment") last]
-            let lines2 := if commentE.isEmpty then lines1.dropLast else lines1.dropLast ++ [commentE]
-            .ok (some { lines := lines2, hdr := { line := lineno, codeBefore := codeBefore, codeAfter := codeAfter } },
+            let endText := if commentE.isEmpty then none else some (commentE, last, groupStart ge "comment")
+            .ok (some { lines := lines1.dropLast, endText := endText,
+                        hdr := { line := lineno, codeBefore := codeBefore, codeAfter := codeAfter } },
                  d1 ++ d2 ++ d3 ++ d4)
 
 /-- `parse_comment_block` after the split into lines -/
@@ -556,7 +591,13 @@ def parseBlockLines (lines : List Str) (lineno : Nat) : Except PyErr (Option Blo
   | .ok (some o, d) =>
     match lineLoop o.hdr o.lines lineno { BSt.init with diags := d } with
     | .error e => .error e
-    | .ok st => .ok (finishBlock st, st.diags)
+    | .ok st =>
+      match o.endText with
+      | none => .ok (finishBlock st, st.diags)
+      | some (text, src, off) =>
+        match lineStepAt o.hdr st (lineno + o.lines.length + 1) off src text with
+        | .error e => .error e
+        | .ok st' => .ok (finishBlock st', st'.diags)
 
 /-- `parse_comment_block(comment, filename, lineno)` without the final `validate()`:
     the block (or `None`) and the diagnostics logged on the way, in order -/
